@@ -48,6 +48,7 @@ def run(cx):
         cx.analysed["selftest"] = res
         return True
     ok = True
+    jobs = []   # (kind, label, patch, expected rules)
     for d in sorted(glob.glob(os.path.join(VERIF, "seeded", "C*"))):
         try:
             meta = json.load(open(os.path.join(d, "meta.json")))
@@ -56,17 +57,23 @@ def run(cx):
         detect = meta.get("detected_by", {})
         if cx.pid not in detect:
             continue
-        r = run_variant(cx.pid, os.path.join(d, "patch.diff"), os.path.basename(d))
-        r["expected_rules"] = detect[cx.pid]
-        fired = r.get("applied") and r.get("rc") == 1 and any(x in r.get("rules", []) for x in detect[cx.pid])
-        r["ok"] = bool(fired)
-        ok = ok and fired
-        res["mutants"].append(r)
+        jobs.append(("mutant", os.path.basename(d), os.path.join(d, "patch.diff"), detect[cx.pid]))
     for p in sorted(glob.glob(os.path.join(VERIF, "selftest", "benign", "*.patch"))):
-        r = run_variant(cx.pid, p, os.path.basename(p))
-        silent = r.get("applied") and r.get("rc") == 0
-        r["ok"] = bool(silent)
-        ok = ok and silent
-        res["benign"].append(r)
+        jobs.append(("benign", os.path.basename(p), p, None))
+    from concurrent.futures import ThreadPoolExecutor
+    with ThreadPoolExecutor(max_workers=int(os.environ.get("SASV_SELFTEST_JOBS", "4"))) as ex:
+        results = list(ex.map(lambda j: run_variant(cx.pid, j[2], j[1]), jobs))
+    for (kind, label, patch, exp), r in zip(jobs, results):
+        if kind == "mutant":
+            r["expected_rules"] = exp
+            fired = r.get("applied") and r.get("rc") == 1 and any(x in r.get("rules", []) for x in exp)
+            r["ok"] = bool(fired)
+            ok = ok and fired
+            res["mutants"].append(r)
+        else:
+            silent = r.get("applied") and r.get("rc") == 0
+            r["ok"] = bool(silent)
+            ok = ok and silent
+            res["benign"].append(r)
     cx.analysed["selftest"] = res
     return ok
